@@ -33,7 +33,7 @@ def nontrivial_key(spec, t):
     return None
 
 
-def handlers(batch, wdup, wforeign):
+def handlers(batch, wdup, wforeign, wdtrim, wresv):
     def neg(entry):
         errs = []
         for w in ("wneg", "wbig"):
@@ -83,8 +83,24 @@ def handlers(batch, wdup, wforeign):
         if any("Tock" in l for l in e):
             return "buggy"
         return "correct" if not e else "other: " + "; ".join(e)[:400]
+    def dup_trimmed(entry):
+        if wdtrim.gen["rc"] != 0:
+            return "correct" if "High" in wdtrim.gen["err"] else "other: shoot: " + wdtrim.gen["err"][-300:]
+        e = wdtrim.errors()
+        if any('duplicate key "High"' in l for l in e):
+            return "buggy"
+        return "correct" if not e else "other: " + "; ".join(e)[:400]
+
+    def reserved(entry):
+        if wresv.gen["rc"] != 0:
+            return "correct" if "x" in wresv.gen["err"] else "other: shoot: " + wresv.gen["err"][-300:]
+        e = wresv.errors()
+        if any(".shootenum" in l for l in e):
+            return "buggy"
+        return "correct" if not e else "other: " + "; ".join(e)[:400]
     return {"K_enum_neg": neg, "K_enum_sort_unsigned": sort_unsigned, "K_enum_dup": dup,
-            "K_enum_implicit_type": implicit, "K_enum_foreign_carry": foreign}
+            "K_enum_implicit_type": implicit, "K_enum_foreign_carry": foreign,
+            "K_enum_dup_trimmed": dup_trimmed, "K_enum_reserved_names": reserved}
 
 
 def main(run):
@@ -96,6 +112,7 @@ def main(run):
     all_rows, all_mism, stale_rows, stale_mism = [], [], [], []
     feats, keys, evaluations, programs, builds = {}, set(), 0, 0, 0
     outcome = {}
+    in_guard = stale_guard_failures = 0
     done = 0
     bi = 0
     while done < total:
@@ -124,6 +141,8 @@ def main(run):
         if bi == 0:
             wdup = er.BuildOnly(batch, shoot, "wdup", er.WITNESS_DUP, ["enum", "-type=Color"])
             wforeign = er.BuildOnly(batch, shoot, "wforeign", er.WITNESS_FOREIGN, ["enum", "-type=Lvl"])
+            wdtrim = er.BuildOnly(batch, shoot, "wdtrim", er.WITNESS_DUP_TRIMMED, ["enum", "-type=Level"])
+            wresv = er.BuildOnly(batch, shoot, "wresv", er.WITNESS_RESERVED, ["enum", "-type=Axis"])
         run.log("batch %d: %d packages generated" % (bi, len(batch.jobs)))
         batch.build_and_run()
         run.log("batch %d: built and executed (%d go builds)" % (bi, batch.builds))
@@ -153,12 +172,24 @@ def main(run):
         run.log("batch %d: %d stale variants built" % (bi, len(stale)))
         rows = batch.coq_cases()
         mism = er.coq_mismatches(run, "mismatches04", [r[2] for r in rows], "c04_%d" % bi)
+        in_guard += er.coq_mismatches.in_guard
         srows = [(spec, s2, desc, d, d not in batch.extra_errs) for spec, s2, desc, d in stale]
+        for spec, s2, desc, d, built in srows:
+            # a stale variant whose declared values changed must fail BECAUSE OF the guard (or a table key)
+            if not built and er.declared_changed(spec, s2):
+                stale_guard_failures += 1
+                if not er.stale_failure_is_guard(batch.extra_errs[d]):
+                    run.violation({"kind": "stale-variant-fails-for-another-reason",
+                                   "correspondence": "L2:C04:stale guard: the build of the edited package fails, but no "
+                                                     "error of the guard function / map keys is among the errors",
+                                   "edit": desc, "build_errors": batch.extra_errs[d],
+                                   "sources_at_generation": eg.render_go(spec), "sources_edited": eg.render_go(s2)},
+                                  no_input=True)
         smism = er.coq_mismatches(run, "stale_mismatches", [er.coq_stale_case(sp, s2, b) for sp, s2, _, _, b in srows],
                                   "c04s_%d" % bi, shard=40, ctype="stale_case")
         run.log("batch %d: coq done, mismatches %d + %d" % (bi, len(mism), len(smism)))
         if bi == 0:
-            outcome = run.replay_findings(handlers(batch, wdup, wforeign))
+            outcome = run.replay_findings(handlers(batch, wdup, wforeign, wdtrim, wresv))
         er.report(run, batch, "C04", THEOREMS, mism, rows)
         for idx, v in smism[:3]:
             spec, s2, desc, d, built = srows[idx]
@@ -183,6 +214,11 @@ def main(run):
         bi += 1
     if not proof_ok and not all_mism and not stale_mism:
         run.proof_failure_violation()
+    if in_guard != len(all_rows):
+        run.violation({"kind": "comparison-stream-left-the-guard",
+                       "correspondence": "L2:C04: %d of %d compared targets are inside enum_guard (EnumCorr.guard_count); "
+                                         "the generator is expected to keep all of them inside" % (in_guard, len(all_rows))},
+                      no_input=True)
     kinds = {}
     for job, t, term, o in all_rows:
         kinds[t["kind"]] = kinds.get(t["kind"], 0) + 1
@@ -207,7 +243,9 @@ def main(run):
         "programs": programs,
         "go_builds": builds,
         "targets": len(all_rows),
+        "targets_in_guard": in_guard,
         "stale_cases": len(stale_rows),
+        "stale_failures_checked_to_be_guard_errors": stale_guard_failures,
         "stale_edit_kinds": count_by(d.split(":")[0] for _, _, d, _, _ in stale_rows),
         "stale_build_failed": sum(1 for r in stale_rows if not r[4]),
         "kinds": kinds,
